@@ -4,7 +4,7 @@
     [annot_routine] are the model of Loki's DataflowAnalysisAttacher (tied to the code on every run). *)
 From Coq Require Import ZArith List Bool String.
 From LV Require Import Base.Expr Base.MiniF models.M_C26
-     proofs.P_C26 proofs.P_C26_def proofs.P_C26_frame proofs.P_C26_use proofs.P_C26_live.
+     proofs.P_C26 proofs.P_C26_def proofs.P_C26_frame proofs.P_C26_use proofs.P_C26_live proofs.P_C26_sel.
 Import ListNotations.
 Open Scope Z_scope.
 
@@ -118,3 +118,24 @@ Theorem C26_class_nonempty :
   exists s' t, exec_tr ex_ps 10 ex_prog (st0 [] []) = Some (s', t).
 Proof. exact class_nonempty. Qed.
 Print Assumptions C26_class_nonempty.
+
+(** SELECT CASE: the IF/ELSE-IF chain that encodes it (and is its semantics: first CASE whose values
+    contain the selector, CASE DEFAULT last) carries, at the SELECT node, exactly the sets that
+    visit_MultiConditional computes; so all theorems above apply to routines with SELECT CASE *)
+Theorem C26_select_chain_sets : forall sg sel cases dflt st,
+  cases <> [] -> (forall cb, In cb cases -> fst cb <> []) ->
+  sel_chain sel cases dflt = [st] ->
+  forall x, (In x (fst (du_stmt sg st)) <-> In x (fst (select_du sg sel cases dflt))) /\
+            (In x (snd (du_stmt sg st)) <-> In x (snd (select_du sg sel cases dflt))).
+Proof. exact select_chain_sets. Qed.
+Print Assumptions C26_select_chain_sets.
+
+(** the tags that mark the links of the chain change neither value nor symbols of the conditions *)
+Theorem C26_select_tags_neutral : forall rho c,
+  evalB rho (sel_head c) = evalB rho c /\ evalB rho (sel_cont c) = evalB rho c /\
+  (forall x, In x (evars (sel_head c)) <-> In x (evars c)) /\ (forall x, In x (evars (sel_cont c)) <-> In x (evars c)).
+Proof.
+  intros rho c. split; [apply evalB_sel_head|]. split; [apply evalB_sel_cont|].
+  split; intros x; [apply evars_sel_head|apply evars_sel_cont].
+Qed.
+Print Assumptions C26_select_tags_neutral.
